@@ -197,8 +197,8 @@ func (e *vpC16Env) finalize(s *common.Snapshot, txs []*common.VersionedTransacti
 
 func TestVP_C16_validated_finalizes(t *testing.T) {
 	c := kit.New(t, "C16", "rapid: histories of 6..20 snapshots on a real node (7 chains, round transitions): each snapshot batches 1..4 pending transactions (deposits of XIN / BTC (capacity 2500, amounts up to 1200 so the cap is reachable) / an unlisted asset, several deposits of one asset pending at once; deposits naming a bound asset id with altered chain/key text, which validation may refuse; transfers with 1..3 inputs and outputs of finalized outputs at any output index; withdrawal submits with and without change, repeatedly on one asset; withdrawal claims of finalized submits); every member is pushed through the node's own validateSnapshotTransaction (ordinary path first for 'pending' snapshots that are finalized later, finalization path otherwise); oracle: validation passed for every member => the finalization path writes the snapshot without error or panic and it becomes readable; the listed known-finding classes (pending+finalized deposits reaching capacity; contradicting asset bindings pending together) are excluded by construction and counted; non-trivial = snapshot with >=2 members or >=2 deposits of one asset pending across consecutive snapshots; distinct by snapshot hash")
-	c.Require("batch>=2", "pending-deposits-same-asset", "transfer", "transfer-multi-input", "submit", "submit-with-change", "claim", "deposit-info-variant", "late-finalize", "near-capacity")
-	kit.SetChecks(kit.N(25, 900))
+	c.Require("batch>=2", "pending-deposits-same-asset", "transfer", "transfer-multi-input", "submit", "submit-with-change", "claim", "deposit-info-variant", "late-finalize", "near-capacity", "submit-odd-output")
+	kit.SetChecks(kit.N(60, 1200))
 	rapid.Check(t, func(t *rapid.T) {
 		e := vpC16Start("c16")
 		defer e.Close()
@@ -270,8 +270,22 @@ func TestVP_C16_validated_finalizes(t *testing.T) {
 							}
 							tx.Outputs = append(tx.Outputs, &common.Output{Type: common.OutputTypeWithdrawalSubmit, Amount: w, Withdrawal: &common.WithdrawalData{Address: fmt.Sprintf("addr-%d", e.seq), Tag: "t"}})
 							if w.Cmp(total) < 0 {
-								tx.AddOutputWithType(common.OutputTypeScript, []*common.Address{acct("change_to")}, common.NewThresholdScript(1), total.Sub(w), vpKSeed("c16-ch", e.seq))
+								rest := total.Sub(w)
+								odd := common.Zero
+								if third := rest.Div(3); third.Sign() > 0 && rapid.IntRange(0, 5).Draw(t, "odd_output") == 0 {
+									odd = third
+									rest = rest.Sub(odd)
+								}
+								tx.AddOutputWithType(common.OutputTypeScript, []*common.Address{acct("change_to")}, common.NewThresholdScript(1), rest, vpKSeed("c16-ch", e.seq))
 								cl = append(cl, "submit-with-change")
+								if odd.Sign() > 0 {
+									// a further output that is not a plain script output: nothing is
+									// demanded of validation, but what it lets through must finalize
+									ot := rapid.SampledFrom([]uint8{0x77, common.OutputTypeWithdrawalClaim, common.OutputTypeNodePledge, common.OutputTypeNodeRemove, common.OutputTypeWithdrawalSubmit, 0xb2}).Draw(t, "odd_type")
+									tx.AddOutputWithType(ot, []*common.Address{acct("odd_to")}, common.NewThresholdScript(1), odd, vpKSeed("c16-odd", e.seq))
+									freeform = true
+									cl = append(cl, "submit-odd-output")
+								}
 							}
 						}))
 						cl = append(cl, "submit")
@@ -279,7 +293,7 @@ func TestVP_C16_validated_finalizes(t *testing.T) {
 					default: // withdrawal claim (XIN fee) for a finalized submit
 						xin := common.XINAssetId
 						fee := common.NewIntegerFromString("0.0001")
-						if len(e.submits) == 0 {
+						if len(e.submits) == 0 && len(e.submitsPending) == 0 {
 							continue
 						}
 						ins := e.takeOuts(t, 1, &xin)
@@ -287,7 +301,15 @@ func TestVP_C16_validated_finalizes(t *testing.T) {
 							e.outs = append(e.outs, ins...)
 							continue
 						}
-						ref := e.submits[rapid.IntRange(0, len(e.submits)-1).Draw(t, "claim_of")]
+						var ref crypto.Hash
+						if len(e.submitsPending) > 0 && (len(e.submits) == 0 || rapid.IntRange(0, 1).Draw(t, "claim_pending") == 0) {
+							// the submit it names is validated and persisted but not finalized yet
+							ref = e.submitsPending[rapid.IntRange(0, len(e.submitsPending)-1).Draw(t, "claim_of_pending")].PayloadHash()
+							freeform = true
+							cl = append(cl, "claim-of-pending-submit")
+						} else {
+							ref = e.submits[rapid.IntRange(0, len(e.submits)-1).Draw(t, "claim_of")]
+						}
 						body := []byte(fmt.Sprintf("claim-%d", e.seq))
 						sig := e.net.Custodian.PrivateSpendKey.Sign(crypto.Blake3Hash(body))
 						txs = append(txs, e.spend(ins, []crypto.Hash{ref}, append(sig[:], body...), func(tx *common.Transaction, total common.Integer) {
@@ -298,8 +320,11 @@ func TestVP_C16_validated_finalizes(t *testing.T) {
 					}
 					continue
 				}
-				a := e.assets[rapid.IntRange(0, 2).Draw(t, "asset")]
+				a := e.assets[rapid.SampledFrom([]int{0, 1, 1, 2}).Draw(t, "asset")]
 				amt := uint64(rapid.IntRange(1, 1200).Draw(t, "amount"))
+				if a.cap > 0 && a.cap < 10000 && rapid.Bool().Draw(t, "big_amount") {
+					amt = uint64(rapid.IntRange(600, 1200).Draw(t, "amount_big")) // the small capacity is reached within a few deposits
+				}
 				if a.cap > 0 && a.used+amt > a.cap {
 					c.Class("excluded-known")
 					if a.used >= a.cap {
